@@ -126,6 +126,13 @@ func (g G) Has(sub string) bool {
 // counter did not move. It returns false if maxWait (a generous wall-clock
 // watchdog) elapsed first; that outcome is inconclusive, never a verdict.
 func Quiesce(maxWait time.Duration) (bool, []G) {
+	st, snap := QuiesceOr(nil, maxWait)
+	return st == "quiescent", snap
+}
+
+// QuiesceOr is Quiesce that also returns early ("ready") when ch is closed.
+// It returns "ready", "quiescent" or "watchdog".
+func QuiesceOr(ch <-chan struct{}, maxWait time.Duration) (string, []G) {
 	start := time.Now()
 	self := Self()
 	consecutive := 0
@@ -134,6 +141,13 @@ func Quiesce(maxWait time.Duration) (bool, []G) {
 	for {
 		for i := 0; i < 4; i++ {
 			runtime.Gosched()
+		}
+		if ch != nil {
+			select {
+			case <-ch:
+				return "ready", nil
+			default:
+			}
 		}
 		act := atomic.LoadInt64(&Activity)
 		snap := Snapshot()
@@ -151,13 +165,20 @@ func Quiesce(maxWait time.Duration) (bool, []G) {
 			consecutive++
 			lastAct = act
 			if consecutive >= 2 {
-				return true, snap
+				if ch != nil {
+					select {
+					case <-ch:
+						return "ready", nil
+					default:
+					}
+				}
+				return "quiescent", snap
 			}
 			continue
 		}
 		consecutive = 0
 		if time.Since(start) > maxWait {
-			return false, snap
+			return "watchdog", snap
 		}
 		time.Sleep(pause)
 		if pause < time.Millisecond {
